@@ -150,6 +150,29 @@ func checkTime(c timeCase, r *h.Rec) error {
 		return fmt.Errorf("GM NeedReseed() is true %v after instantiation with 2 of %d generates used", time.Since(t0), testInterval)
 	}
 
+	// --- a generate in the MIDDLE of the window: use must not restart the clock
+	// (seeded change C17-9-1 stamped the time in Generate as well, so a generator
+	// that is used at least once per interval never reached the limit). Accepted
+	// is demanded only if less than 5 s were measured since before the constructor.
+	for time.Since(t1) < timeInterval/2+200*time.Millisecond {
+		time.Sleep(timeInterval/2 + 200*time.Millisecond - time.Since(t1) + 5*time.Millisecond)
+	}
+	{
+		gotG, errG := gen1(g, addl)
+		switch {
+		case errG == nil:
+			wantG, _ := mg.Generate(n, addl)
+			if !bytes.Equal(gotG, wantG) {
+				return fmt.Errorf("GM generate in the middle of the window (%v after instantiation): got %x want %x", time.Since(t0), gotG, wantG)
+			}
+			r.Label("mid-window-generate")
+		case time.Since(t0) < 5*time.Second:
+			return fmt.Errorf("GM generate %v after instantiation (interval %v) failed: %v", time.Since(t0), timeInterval, errG)
+		default:
+			r.Label("mid-skipped")
+		}
+	}
+
 	// --- sleep past the interval
 	for time.Since(t1) <= timeInterval+timeMargin {
 		time.Sleep(timeInterval + timeMargin - time.Since(t1) + 10*time.Millisecond)
